@@ -38,6 +38,17 @@ def in_machine(b):
 def run(ctx):
     p = ctx.p
     chk = ctx.chk
+    # the premise "the stack limit of the raw machine is never NOSET" (which discharges the unreachable! arm of the stack
+    # supervision) is established where the limit is stored: the load clauses of C07's rule, shared - for every value of the
+    # two directives, on a machine that holds earlier limits, Machine::load never stores Stacksize::NotSet.
+    from . import C07 as _C07
+    chk.prefix = "premise/"
+    chk.keep_only = lambda k: k.startswith(("load/limits/", "load/stacksize-never-notset", "load/analysable"))
+    try:
+        _C07.run(ctx)
+    finally:
+        chk.prefix = ""
+        chk.keep_only = None
     I = absint.Interp(p)
     I.trace_blocks = True
 
